@@ -126,6 +126,7 @@ OBS = {
     "rowscol": (lambda x, a: x[(a[0] if isinstance(a[0], np.ndarray) else list(a[0])), a[1]].tolist(), lambda r, a: [r[i][a[1]] for i in np.asarray(a[0]).tolist()]),
     "pairs": (lambda x, a: x[a[0], a[1]].tolist(), lambda r, a: [r[i][j] for i, j in zip(np.asarray(a[0]).tolist(), np.asarray(a[1]).tolist())]),
     "elem_oob": (lambda x, a: _refusal(lambda: x[a[0], a[1]]), lambda r, a: "refused"),
+    "rows_oob": (lambda x, a: _refusal(lambda: (x[a[0]] if a[1] is None else x[a[0], a[1]]).tolist()), lambda r, a: "refused"),      # a row list / index array naming a row that does not exist
     "badadd": (lambda x, a: _refusal(lambda: (x == _bad_partner(x, a)) if a[2] else (_bad_partner(x, a) == x)), lambda r, a: "refused"),
     "ell": (lambda x, a: x[...].tolist(), lambda r, a: [list(q) for q in r]),
     "empty": (lambda x, a: x[()].tolist(), lambda r, a: [list(q) for q in r]),
@@ -185,7 +186,7 @@ def _snap_same(o, sn):
 MATERIALISING = {"tolist", "iter", "ravel", "sum1", "npsum1", "sumall", "nonzero", "add1", "eqself", "cumsum", "sort", "diff", "zeros", "concatself", "astype", "save"}
 READ_OPS = [k for k in OBS]
 # observations whose result on float data (NaN, inf, -0.0, non-dyadic values) is defined element by element, hence exactly predictable
-FLOAT_OBS = ["reversed", "lenbool", "partnerpurity", "tolist", "iter", "ravel", "meta", "repr", "str", "row", "elem", "rowscol", "pairs", "elem_oob", "badadd", "ell", "empty", "maskidx", "subset", "padded", "nonzero", "add1", "sel", "rslice",
+FLOAT_OBS = ["reversed", "lenbool", "partnerpurity", "tolist", "iter", "ravel", "meta", "repr", "str", "row", "elem", "rowscol", "pairs", "elem_oob", "rows_oob", "badadd", "ell", "empty", "maskidx", "subset", "padded", "nonzero", "add1", "sel", "rslice",
              "getcol", "colcounts", "tonp", "astype", "concatself", "zeros", "diff", "save"]
 FLOAT_READS = FLOAT_OBS + ["sum1", "npsum1", "sumall", "any1", "eqself", "where", "max1", "sort", "unique", "mean1", "mean0", "all1", "min1"]     # fine as *inserted reads* (no model opinion needed)
 FLOAT_POOL = [0.1, 0.7, 1e17, 1.0, -2.5, 3.25, float("inf"), float("nan"), -0.0, 0.3, 123456.789, -1e-7, float("-inf"), 2.0]
@@ -203,7 +204,7 @@ def obs_applicable(name, rows):
         return n > 0
     if name in ("elem", "rowscol", "pairs"):
         return tot > 0
-    if name == "elem_oob":
+    if name in ("elem_oob", "rows_oob"):
         return n > 0
     if name in ("badadd", "partnerpurity"):
         return n >= 2 and tot > 0
@@ -246,6 +247,12 @@ def obs_arg(rng, name, rows):
         # flat position still lies inside the buffer, so only a real bounds check refuses it
         i = rng.randrange(n)
         return [i if rng.random() < 0.5 else i - n, lens[i] if rng.random() < 0.5 else -lens[i] - 1]
+    if name == "rows_oob":
+        bad_ = rng.choice([n, n + 1, -n - 1, -n - 2, 2 * n, -2 * n - 1])
+        rs = [rng.randrange(n) for _ in range(rng.randint(0, 2))] + [bad_] + [rng.randrange(n) for _ in range(rng.randint(0, 1))]
+        if rng.random() < 0.5:
+            rs = np.array(rs, dtype=rng.choice([np.int64, np.int32]))
+        return [rs, rng.choice([None, None, slice(None), slice(1, None), slice(None, None, -1)])]
     if name in ("badadd", "partnerpurity"):
         src = rng.choice([k for k in range(n) if lens[k]])
         dst = rng.choice([k for k in range(n) if k != src])
@@ -296,8 +303,9 @@ def gen_program(rng, tier="quick", allow_hazard=False, nsteps=None, init_rows=No
     isf = dtype == "float64"
     num = (lambda lo, hi: rng.choice(FLOAT_POOL)) if isf else (lambda lo, hi: rng.randint(lo, hi))
     read_ops = FLOAT_OBS if isf else READ_OPS
+    read_ops_all = list(read_ops)
     if via == "unsafe":
-        read_ops = [o for o in read_ops if o not in ("elem_oob", "badadd")]     # refusals are off by design for this array and what derives from it
+        read_ops = [o for o in read_ops if o not in ("elem_oob", "rows_oob", "badadd")]     # refusals are switched off by design -- for this array itself (and its whole-array aliases) only
     if init_rows is None:
         init_rows = [[num(-20, 40) for _ in range(l)] for l in lens]
     env = {"a0": copy.deepcopy(init_rows)}
@@ -330,7 +338,9 @@ def gen_program(rng, tier="quick", allow_hazard=False, nsteps=None, init_rows=No
     def add_obs(u, name=None):
         rows = env[u]
         for _ in range(8):
-            nm = name or rng.choice(read_ops)
+            # (what is derived from an array built with safe_mode=False -- selections, ufunc results -- is an ordinary array again and refuses what a
+            # freshly built equal array refuses)
+            nm = name or rng.choice(read_ops_all if (via == "unsafe" and track[u].own != 0) else read_ops)
             if obs_applicable(nm, rows):
                 steps.append({"op": "obs", "u": u, "what": nm, "arg": obs_arg(rng, nm, rows)})
                 if nm in MATERIALISING:
